@@ -1074,6 +1074,67 @@ func judgeStreamTrace(sc *sScript, trace []sObs, hist []histEv) [][3]string {
 	return fails
 }
 
+// judgeFresh executes the script (re-recording the events of every commit:
+// removing steps changes what later commits append) and judges the run.
+func judgeFresh(sc *sScript) [][3]string {
+	for attempt := 0; ; attempt++ {
+		run := newSRun(sc.min, sc.max, sc.always)
+		for _, s := range sc.steps {
+			run.step(s, true)
+		}
+		trace, hist, bad := run.trace, run.hist, run.epochBad
+		run.close()
+		if bad && attempt < 5 {
+			continue
+		}
+		return judgeStreamTrace(sc, trace, hist)
+	}
+}
+
+// shrinkStreamCase removes steps as long as a failure with the same signature
+// remains (watch steps stay: stream numbers are positional).
+func shrinkStreamCase(sc *sScript, sig string) (*sScript, [3]string) {
+	has := func(c *sScript) ([3]string, bool) {
+		for _, f := range judgeFresh(c) {
+			if f[0] == sig {
+				return f, true
+			}
+		}
+		return [3]string{}, false
+	}
+	cur := &sScript{min: sc.min, max: sc.max, always: sc.always}
+	for _, s := range sc.steps {
+		c := *s
+		cur.steps = append(cur.steps, &c)
+	}
+	best, ok := has(cur)
+	if !ok {
+		return sc, [3]string{sig, "not reproduced while shrinking", "0"}
+	}
+	if sc.min < sBig {
+		return cur, best // retention-by-options cases sleep: not shrunk
+	}
+	for changed := true; changed; {
+		changed = false
+		for i := len(cur.steps) - 1; i >= 0; i-- {
+			if cur.steps[i].kind == "watch" && i != len(cur.steps)-1 {
+				continue
+			}
+			cand := &sScript{min: cur.min, max: cur.max, always: cur.always}
+			for j, s := range cur.steps {
+				if j != i {
+					c := *s
+					cand.steps = append(cand.steps, &c)
+				}
+			}
+			if f, ok := has(cand); ok {
+				cur, best, changed = cand, f, true
+			}
+		}
+	}
+	return cur, best
+}
+
 func oracleC09Delivery(r *rng, n int, st *oracleStats) []oracleFailure {
 	st.Rule = "sequential scripts (commits through the driver API on 2 dbs x 2 collections incl. drops and multi-namespace transactions, retention trims, Watch at client/db/collection scope from now / resumeAfter / startAfter / startAtOperationTime, TryNext, Close) on the real engine; per stream the decoded events are compared with the scope-filtered history of local.oplog after the start position: once, in order, no gap unless ErrLostOplogPosition, invalidate after drop, resume continues; non-trivial = some stream delivered an event"
 	var fails []oracleFailure
@@ -1155,8 +1216,11 @@ func oracleC09Delivery(r *rng, n int, st *oracleStats) []oracleFailure {
 				if seenSig[f[0]] > 3 { // a few witnesses per kind
 					continue
 				}
-				fails = append(fails, oracleFailure{Property: "C09", Signature: f[0], What: f[1], Family: "stream", Case: j.text,
-					Detail: map[string]string{"step": f[2]}})
+				c, _ := parseSx(j.text)
+				sc, _ := parseStreamScript(c)
+				small, sf := shrinkStreamCase(sc, f[0])
+				fails = append(fails, oracleFailure{Property: "C09", Signature: f[0], What: sf[1], Family: "stream", Case: small.text(),
+					Detail: map[string]string{"step": sf[2], "unshrunk_case": j.text}})
 			}
 		}
 	}
